@@ -90,7 +90,7 @@ func ReflectChild(obj interface{}) node.Node {
 }
 
 func ReflectList(obj interface{}) node.Node {
-	return Reflect{}.list(reflect.ValueOf(obj), nil)
+	return Reflect{}.list(reflect.ValueOf(obj), nil, nil)
 }
 
 func (self Reflect) isEmpty(v reflect.Value) bool {
@@ -154,30 +154,37 @@ func (self Reflect) List(o interface{}) node.Node {
 }
 
 func (self Reflect) ReflectList(v reflect.Value, onUpdate OnListValueChange) node.Node {
+	return self.reflectList(v, onUpdate, nil)
+}
+
+// current, when given, reads the list from where it is kept. A slice is replaced by
+// another one when it grows or shrinks and a node made before that would otherwise go
+// on with the slice it was made for
+func (self Reflect) reflectList(v reflect.Value, onUpdate OnListValueChange, current func() reflect.Value) node.Node {
 	switch v.Kind() {
 	case reflect.Map:
 		return self.listMap(v)
 	case reflect.Interface:
 		switch v.Elem().Kind() {
 		case reflect.Slice:
-			return self.listSlice(v.Elem(), onUpdate)
+			return self.listSlice(v.Elem(), onUpdate, current)
 		case reflect.Map:
 			return self.listMap(v.Elem())
 		}
 	case reflect.Slice:
-		return self.listSlice(v, onUpdate)
+		return self.listSlice(v, onUpdate, current)
 	}
 	panic("unsupported type for listing " + v.String())
 }
 
-func (self Reflect) list(v reflect.Value, onUpdate OnListValueChange) node.Node {
+func (self Reflect) list(v reflect.Value, onUpdate OnListValueChange, current func() reflect.Value) node.Node {
 	if self.isEmpty(v) {
 		return nil
 	}
 	if self.OnList != nil {
 		return self.OnList(self, v)
 	}
-	return self.ReflectList(v, onUpdate)
+	return self.reflectList(v, onUpdate, current)
 }
 
 type sliceEntry struct {
@@ -247,11 +254,29 @@ func (self Reflect) buildKey(n node.Node, keyMeta []meta.Leafable) ([]val.Value,
 	return key, nil
 }
 
-func (self Reflect) listSlice(v reflect.Value, onChange OnListValueChange) node.Node {
+func (self Reflect) listSlice(v reflect.Value, onChange OnListValueChange, current func() reflect.Value) node.Node {
 	var entries sliceSorter
+	// the slice the entries were indexed for
+	var indexedAt uintptr
+	var indexedLen int
 	e := v.Type().Elem()
+	sliceType := v.Type()
 	return &Basic{
 		OnNext: func(r node.ListRequest) (node.Node, []val.Value, error) {
+			if current != nil {
+				cur := current()
+				if cur.IsValid() && cur.Kind() == reflect.Interface {
+					cur = cur.Elem()
+				}
+				if cur.IsValid() && cur.Kind() == reflect.Slice && cur.Type() == sliceType {
+					v = cur
+				} else if !cur.IsValid() {
+					v = reflect.MakeSlice(sliceType, 0, 0)
+				}
+				if entries != nil && (v.Len() != indexedLen || v.Pointer() != indexedAt) {
+					entries = nil
+				}
+			}
 			key := r.Key
 			if r.New {
 				item := self.create(e, nil)
@@ -267,14 +292,31 @@ func (self Reflect) listSlice(v reflect.Value, onChange OnListValueChange) node.
 				if !isKeyValid(key) {
 					return nil, nil, fmt.Errorf("invalid key for %v", r.Path.String())
 				}
-				if entries == nil {
-					var err error
+				index := func() (err error) {
 					entries, err = self.buildKeys(r.Selection, r.Meta.KeyMeta(), v)
-					if err != nil {
+					indexedAt, indexedLen = v.Pointer(), v.Len()
+					return
+				}
+				if entries == nil {
+					if err := index(); err != nil {
 						return nil, nil, err
 					}
 				}
-				if found, i := entries.find(key); found != nil {
+				found, i := entries.find(key)
+				if found != nil && current != nil {
+					// items may have moved inside the same slice since they were indexed
+					var now []val.Value
+					if i < v.Len() {
+						now, _ = self.buildKey(self.child(v.Index(i)), r.Meta.KeyMeta())
+					}
+					if !isKeyValid(now) || !val.EqualVals(now, key) {
+						if err := index(); err != nil {
+							return nil, nil, err
+						}
+						found, i = entries.find(key)
+					}
+				}
+				if found != nil {
 					if r.Delete {
 						part1 := v.Slice(0, i)
 						part2 := v.Slice(i+1, v.Len())
@@ -413,7 +455,10 @@ func (self Reflect) childMap(v reflect.Value) node.Node {
 				onUpdate := func(update reflect.Value) {
 					v.SetMapIndex(mapKey, update)
 				}
-				return self.list(childInstance, onUpdate), nil
+				current := func() reflect.Value {
+					return v.MapIndex(mapKey)
+				}
+				return self.list(childInstance, onUpdate, current), nil
 			}
 			return self.child(childInstance), nil
 		},
@@ -499,7 +544,10 @@ func (self Reflect) strukt(ptrVal reflect.Value) node.Node {
 				onUpdate := func(update reflect.Value) {
 					childVal.Set(update)
 				}
-				return self.list(childVal, onUpdate), nil
+				current := func() reflect.Value {
+					return childVal
+				}
+				return self.list(childVal, onUpdate, current), nil
 			}
 			return self.child(childVal), nil
 		},
